@@ -331,6 +331,40 @@ def check_request(W, rec, rng):
         return
     if out[0] == "413":
         rec.observe("rejected_413")
+    if out[0] in ("413", "disc") and kind == "multipart":
+        # history: the application (an error handler, a logger) looks at request.form again after the refusal.  Every
+        # later look either refuses again or - limits being pure guards - shows what an unlimited parse shows; never
+        # the part of the form that lies behind the point where parsing was abandoned.
+        later = None
+        for _ in range(3):
+            try:
+                later = ("ok", [(a, v) for a, v in r.form.items(multi=True)], [(a, f.read()) for a, f in r.files.items(multi=True)])
+                break
+            except (RequestEntityTooLarge, ClientDisconnected):
+                continue
+            except Exception as e:  # noqa: BLE001
+                later = ("EXC", type(e).__name__, str(e)[:80])
+                break
+        rec.observe("looks_at_the_form_after_a_refusal")
+        if later is not None and later[0] == "EXC":
+            rec.violation(f"C10/E4-limit-reported-as-{later[1]}", f"second look at request.form after {out[0]}: {later}; {case}", case, monitor="exception-type")
+            return
+        if later is not None:
+            class RU(Request):
+                max_content_length = None
+                max_form_memory_size = None
+                max_form_parts = None
+
+            envu = dict(env)
+            envu["wsgi.input"] = Short(body, k)
+            try:
+                ru = RU(envu)
+                unlimited = ("ok", [(a, v) for a, v in ru.form.items(multi=True)], [(a, f.read()) for a, f in ru.files.items(multi=True)])
+            except Exception as e:  # noqa: BLE001
+                unlimited = ("EXC", type(e).__name__)
+            if later != unlimited:
+                rec.violation("C10/E3-partial-form-after-a-refused-parse", f"first look: {out[0]}; a later look at request.form returned {str(later)[:200]} - the same body without limits parses to {str(unlimited)[:200]}; {case}", case, monitor="E3")
+                return
     readable = with_cl or terminated  # otherwise the safe fallback gives an empty stream
     if lying:
         case["declared_length"] = declared_len
